@@ -183,6 +183,25 @@ impl Tables<'_> {
 	}
 }
 
+impl Tables<'_> {
+	/// `<spt|tps|tpm>=<f64>` | `m<l|t><idx>_<in0>_<in1>_<speed>_<speed>`
+	fn cs(&self, s: &str) -> Value<ClockSpeed> {
+		if !s.starts_with('m') {
+			return Value::Fixed(clock_speed(s));
+		}
+		let kind = s[1..].chars().next().expect("bad value");
+		let p: Vec<&str> = s[2..].split('_').collect();
+		let (o0, o1) = (clock_speed(p[3]), clock_speed(p[4]));
+		match self.modulator(kind, pu(p[0]) as usize) {
+			Some(id) => Value::FromModulator {
+				id,
+				mapping: Mapping { input_range: (p64(p[1]), p64(p[2])), output_range: (o0, o1), easing: Easing::Linear },
+			},
+			None => Value::Fixed(o0),
+		}
+	}
+}
+
 fn clock_speed(s: &str) -> ClockSpeed {
 	let (k, v) = s.split_once('=').expect("bad clock speed");
 	match k {
@@ -363,13 +382,23 @@ fn show_scene(s: &mut Scene) -> String {
 		.map(|t| format!("{}/{}/{}", format!("{:?}", t.state()).to_lowercase(), t.num_sounds(), t.num_sub_tracks()))
 		.collect::<Vec<_>>()
 		.join(" ");
+	let clk = s
+		.clocks
+		.iter()
+		.map(|c| {
+			let t = c.time();
+			format!("{}/{}/{}", c.ticking() as u8, t.ticks, h64(t.fraction))
+		})
+		.collect::<Vec<_>>()
+		.join(" ");
 	format!(
-		"subs={} sends={} main={} ; {} ; {}",
+		"subs={} sends={} main={} ; {} ; {} ; {}",
 		s.mgr.num_sub_tracks(),
 		s.mgr.num_send_tracks(),
 		s.mgr.main_track().num_sounds(),
 		snd,
-		trk
+		trk,
+		clk
 	)
 }
 
@@ -456,7 +485,7 @@ fn exec(sc: &mut Option<Scene>, l: &str, out: &mut Out) {
 				Err(_) => out.put("limit"),
 			}
 		}
-		"clock" => match s.mgr.add_clock(clock_speed(tok[1])) {
+		"clock" => match s.mgr.add_clock(Tables { clocks: &s.clocks, lfos: &s.lfos, tweeners: &s.tweeners }.cs(tok[1])) {
 			Ok(h) => {
 				s.clocks.push(h);
 				out.put("ok")
@@ -477,7 +506,8 @@ fn exec(sc: &mut Option<Scene>, l: &str, out: &mut Out) {
 		"clock.speed" => match idx(tok[1], s.clocks.len()) {
 			Some(i) => {
 				let tw = s.tables().tween(tok[3]);
-				s.clocks[i].set_speed(clock_speed(tok[2]), tw);
+				let v = s.tables().cs(tok[2]);
+				s.clocks[i].set_speed(v, tw);
 				out.put("ok")
 			}
 			None => out.put("skip"),
@@ -838,6 +868,30 @@ fn gen_db(rng: &mut Rng, g: &G) -> String {
 	v32(rng, g, DBS)
 }
 
+fn gen_cs_fixed(rng: &mut Rng) -> String {
+	match rng.below(3) {
+		0 => format!("spt={}", o64(rng.pick(&[0.5, 1.0, 0.01, 0.001, 0.25]))),
+		1 => format!("tps={}", o64(rng.pick(&[1.0, 2.0, 1000.0, 0.5, 0.0, 100.0]))),
+		_ => format!("tpm={}", o64(rng.pick(&[120.0, 60000.0, 90.0]))),
+	}
+}
+fn gen_cs(rng: &mut Rng, g: &G) -> String {
+	if g.mods && g.lfos + g.tweeners > 0 && rng.chance(1, 3) {
+		let (i0, i1) = rng.pick(&[(-1.0, 1.0), (0.0, 1.0), (1.0, -1.0)]);
+		format!(
+			"m{}{}_{}_{}_{}_{}",
+			rng.pick(&['l', 't']),
+			rng.below(3),
+			o64(i0),
+			o64(i1),
+			gen_cs_fixed(rng),
+			gen_cs_fixed(rng)
+		)
+	} else {
+		gen_cs_fixed(rng)
+	}
+}
+
 fn gen_start(rng: &mut Rng, g: &G) -> String {
 	match rng.below(8) {
 		0 => format!("del:{}", rng.pick(&[0u64, 1, 1_000_000, 50_000_000])),
@@ -985,7 +1039,7 @@ fn gen_case(rng: &mut Rng, thorough: bool, stats: &mut Stats, out: &mut Vec<Stri
 	g.ibs = rng.pick(&[1u64, 2, 3, 7, 16, 64, 128, 128, 256]);
 	let sr = rng.pick(RATES);
 	let main_fx = gen_fx_list(rng, &mut g);
-	out.push(format!("mgr {} {} {} {}", g.ibs, sr, gen_db(rng, &g), main_fx));
+	out.push(format!("mgr {} {} f{} {}", g.ibs, sr, o32(rng.pick(&[0.0f32, 0.0, 0.0, -6.0, 6.0, -3.0, -60.0, 1.5])), main_fx));
 	g.mods = std::env::var("KV_SYSCORE_NOMODS").is_err();
 	let clocks_on = std::env::var("KV_SYSCORE_NOCLOCKS").is_err();
 	let rate_on = std::env::var("KV_SYSCORE_NORATE").is_err();
@@ -1012,6 +1066,90 @@ fn gen_case(rng: &mut Rng, thorough: bool, stats: &mut Stats, out: &mut Vec<Stri
 		));
 	}
 	for _ in 0..steps {
+		if rate_on && fx_kinds() >= 5 && rng.chance(1, 40) {
+			// a track or send with a rate-dependent effect (delay / reverb) that is still in the new-resource ring
+			// when the device rate changes, then heard
+			let fx = if rng.chance(1, 2) {
+				format!("delay:{}:f{}:f{}:0", rng.pick(&[1_000_000u64, 2_000_000, 125_000]), o32(-6.0), o32(0.5))
+			} else {
+				format!("reverb:f{}:f{}:f{}:f{}", o64(0.5), o64(0.5), o64(1.0), o32(0.5))
+			};
+			g.fxs += 1;
+			if rng.chance(1, 2) {
+				g.tracks += 1;
+				out.push(format!("track -1 f{} 0 - {}", o32(0.0), fx));
+				out.push(format!("play {} idx 1000 48000 f{} f{} f{} n=0~end 0 n=0 - imm", g.tracks - 1, o32(-20.0), o64(1.0), o32(0.0)));
+				g.sounds += 1;
+			} else {
+				g.sends += 1;
+				g.tracks += 1;
+				out.push(format!("send f{} {}", o32(0.0), fx));
+				out.push(format!("track -1 f{} 0 {}=f{} -", o32(0.0), g.sends - 1, o32(0.0)));
+				out.push(format!("play {} idx 1000 48000 f{} f{} f{} n=0~end 0 n=0 - imm", g.tracks - 1, o32(-20.0), o64(1.0), o32(0.0)));
+				g.sounds += 1;
+			}
+			if rng.chance(3, 4) {
+				out.push(format!("rate {}", rng.pick(RATES)));
+			}
+			out.push(gen_cb(rng, &g));
+			out.push(format!("rate {}", rng.pick(RATES)));
+			out.push(gen_cb(rng, &g));
+			stats.hit("burst_rate");
+		}
+		if g.mods && clocks_on && rng.chance(1, 30) {
+			// modulator → clock → sound chains: a tweener (moved by a clock-timed tween) drives a clock's speed and a
+			// sound's volume; a second sound waits for that clock
+			out.push(format!("tweener {}", o64(rng.pick(&[0.0, 1.0, 0.5]))));
+			g.tweeners += 1;
+			let tw = g.tweeners - 1;
+			out.push(format!("clock tps={}", o64(rng.pick(&[100.0, 1000.0, 50.0]))));
+			out.push(format!(
+				"clock mt{}_{}_{}_tps={}_tps={}",
+				tw,
+				o64(0.0),
+				o64(1.0),
+				o64(rng.pick(&[10.0, 100.0])),
+				o64(rng.pick(&[1000.0, 400.0]))
+			));
+			g.clocks += 2;
+			out.push(format!("clock.cmd {} start", g.clocks - 2));
+			out.push(format!("clock.cmd {} start", g.clocks - 1));
+			out.push(format!(
+				"play -1 dc={} 4000 48000 mt{}_{}_{}_{}_{} f{} f{} n=0~end 0 n=0 - imm",
+				o32(0.5),
+				tw,
+				o64(0.0),
+				o64(1.0),
+				o32(-30.0),
+				o32(0.0),
+				o64(1.0),
+				o32(0.0)
+			));
+			out.push(format!(
+				"play -1 idx 4000 48000 f{} f{} f{} n=0~end 0 n=0 - clk:{}:{}:{}",
+				o32(-20.0),
+				o64(1.0),
+				o32(0.0),
+				g.clocks - 1,
+				rng.pick(&[1u64, 2, 5]),
+				o64(rng.pick(&[0.0, 0.5]))
+			));
+			g.sounds += 2;
+			out.push(gen_cb(rng, &g));
+			out.push(format!(
+				"tweener.set {} {} clk:{}:{}:{};{};lin",
+				tw,
+				o64(rng.pick(&[1.0, 0.0, 0.25])),
+				g.clocks - 2,
+				rng.pick(&[0u64, 1, 3]),
+				o64(0.0),
+				rng.pick(&[0u64, 1_000_000, 20_000_000])
+			));
+			for _ in 0..rng.range(2, 5) {
+				out.push(gen_cb(rng, &g));
+			}
+			stats.hit("burst_chain");
+		}
 		let line = match rng.below(48) {
 			0 | 1 => {
 				g.sends += 1;
@@ -1035,20 +1173,13 @@ fn gen_case(rng: &mut Rng, thorough: bool, stats: &mut Stats, out: &mut Vec<Stri
 			}
 			5 if clocks_on => {
 				g.clocks += 1;
-				format!(
-					"clock {}",
-					match rng.below(3) {
-						0 => format!("spt={}", o64(rng.pick(&[0.5, 1.0, 0.01, 0.001]))),
-						1 => format!("tps={}", o64(rng.pick(&[1.0, 2.0, 1000.0, 0.5, 0.0]))),
-						_ => format!("tpm={}", o64(rng.pick(&[120.0, 60000.0, 90.0]))),
-					}
-				)
+				format!("clock {}", gen_cs(rng, &g))
 			}
 			6 | 7 if clocks_on && g.clocks > 0 => format!("clock.cmd {} {}", rng.below(3), rng.pick(&["start", "start", "pause", "stop"])),
 			8 if clocks_on && g.clocks > 0 => format!(
 				"clock.speed {} {} {}",
 				rng.below(3),
-				rng.pick(&["tps=4000000000000000", "tpm=4056800000000000", "spt=3fd0000000000000", "tps=408f400000000000"]),
+				gen_cs(rng, &g),
 				gen_tween(rng, &g)
 			),
 			9 if g.mods => {
@@ -1141,7 +1272,20 @@ fn gen_case(rng: &mut Rng, thorough: bool, stats: &mut Stats, out: &mut Vec<Stri
 				format!("fx.set {} {} {} {}", rng.below(g.fxs.max(1)), param, v, gen_tween(rng, &g))
 			}
 			32 if g.fxs > 0 => format!("fx.mode {} {}", rng.below(g.fxs.max(1)), rng.below(4)),
-			33 => format!("drop {} {}", rng.pick(&["track", "track", "send", "clock", "lfo", "tweener", "sound", "fx"]), rng.below(4)),
+			33 => {
+				let kind = rng.pick(&["track", "track", "send", "clock", "lfo", "tweener", "sound", "fx"]);
+				let cnt = match kind {
+					"track" => &mut g.tracks,
+					"send" => &mut g.sends,
+					"clock" => &mut g.clocks,
+					"lfo" => &mut g.lfos,
+					"tweener" => &mut g.tweeners,
+					"sound" => &mut g.sounds,
+					_ => &mut g.fxs,
+				};
+				*cnt = cnt.saturating_sub(1);
+				format!("drop {} {}", kind, rng.below(4))
+			}
 			34 | 35 if rate_on => format!("rate {}", rng.pick(RATES)),
 			_ => gen_cb(rng, &g),
 		};
